@@ -55,6 +55,9 @@ type C10Case struct {
 	// sent at once to one handler/ingestor, optionally after a request whose store call failed
 	// sequential phase on one long-lived ingestor (as in production): the clock advances by GapMs[i]
 	// before delivery i, so pooled per-request state meets requests of different times
+	// a request that is sent before everything else and leaves used pooled objects behind:
+	// reject_after_valid (valid documents, then an invalid line) | store_fails | read_error | ok
+	Prelude        string  `json:"prelude,omitempty"`
 	SharedIngestor bool    `json:"shared_ingestor,omitempty"`
 	GapMs          []int64 `json:"gap_ms,omitempty"`
 	Par          int     `json:"par,omitempty"`
@@ -357,6 +360,27 @@ func RunC10(t *testing.T, c *C10Case) *RunResult {
 			}, client)
 			return ing, proxyapi.NewBulkHandler(ing, c.MaxDocSize)
 		}
+		if c.Prelude != "" {
+			pc := &captureClient{fail: c.Prelude == "store_fails"}
+			ping, ph := newIngestor(pc)
+			body := `{"index":{}}` + "\n" + `{"k0":"prelude-1","msg":"left behind"}` + "\n" + `{"index":{}}` + "\n" + `{"k0":"prelude-2","msg":"left behind too"}` + "\n"
+			if c.Prelude == "reject_after_valid" {
+				body += `{"index":{}}` + "\n" + `{"k0":` + "\n"
+			}
+			rd := &chunkReader{data: []byte(body), rng: verifsim.NewSplitMix(7), mode: 0}
+			if c.Prelude == "read_error" {
+				rd.errAt = len(body) - 5
+			}
+			rec := httptest.NewRecorder()
+			ph.ServeHTTP(rec, httptest.NewRequest(http.MethodPost, "/_bulk", rd))
+			ping.Stop()
+			res.Fired["prelude_"+c.Prelude]++
+			log = append(log, fmt.Sprintf("prelude %s -> status %d, %d documents handed to storage", c.Prelude, rec.Code, len(pc.docs)))
+			if c.Prelude != "ok" && (rec.Code == 200 || (len(pc.docs) > 0 && c.Prelude != "store_fails")) {
+				violate("accepted_bad_request", "prelude request (%s) must be rejected and store nothing: status %d, %d documents", c.Prelude, rec.Code, len(pc.docs))
+				return
+			}
+		}
 		sharedClient := &captureClient{fail: c.StoreFails}
 		var sharedIng *bulk.Ingestor
 		var sharedH http.Handler
@@ -480,7 +504,7 @@ func RunC10(t *testing.T, c *C10Case) *RunResult {
 	res.Steps, res.Switches = s.Steps(), s.Switches()
 	res.Schedule = s.RecordedSchedule()
 	// what distinguishes one case from another here is the shape of the body and how it was cut
-	shape := fmt.Sprintf("%v|%d|%d|%v|%d|%v|%d|%v|%d", c.NoFinalNL, c.TruncateAt, c.ErrorAt, c.Gzip, c.MaxDocSize, c.StoreFails, c.Par, c.ParFailFirst, s.InterleavingHash())
+	shape := fmt.Sprintf("%v|%d|%d|%v|%d|%v|%d|%v|%d|%s", c.NoFinalNL, c.TruncateAt, c.ErrorAt, c.Gzip, c.MaxDocSize, c.StoreFails, c.Par, c.ParFailFirst, s.InterleavingHash(), c.Prelude)
 	for _, l := range c.Lines {
 		shape += fmt.Sprintf("|%s:%d:%v:%s:%d", l.Kind, len(l.Text), l.CRLF, l.TimeFormat, l.OffsetMs)
 	}
@@ -651,6 +675,10 @@ func GenC10(seed uint64, thorough bool, maxDoc int) *C10Case {
 	c.StoreFails = r.Bool(0.1)
 	n := r.Range(0, 9)
 	badness := []float64{0, 0.1, 0.3}[r.Intn(3)]
+	if r.Bool(0.03) {
+		// a big request: the response (one item per document) outgrows its pre-sized buffer
+		n, badness = r.Range(200, 420), 0
+	}
 	words := []string{"alpha", "Beta", "x", "\\u00e9\\u4e16", "tab\\tq\\\"uote", "ÄÖ", "a_b*c", ""}
 	for i := 0; i < n; i++ {
 		if r.Bool(0.15) {
@@ -701,6 +729,9 @@ func GenC10(seed uint64, thorough bool, maxDoc int) *C10Case {
 		c.ErrorAt = r.Range(1, 300)
 	}
 	c.ChunkSeeds = []uint64{0, 1, 2 + r.Uint64()%1000, 2 + r.Uint64()%1000}
+	if r.Bool(0.35) {
+		c.Prelude = []string{"reject_after_valid", "store_fails", "read_error", "ok"}[r.Intn(4)]
+	}
 	if r.Bool(0.4) {
 		c.SharedIngestor = true
 		for range c.ChunkSeeds {
